@@ -530,6 +530,7 @@ type FuncContract struct {
 	LoopsByDesc map[string]*LoopContract // keyed by "<ranged expression>.<k>" or "for.<k>" (k-th such loop)
 	Modifies []string // heap names or "*"
 	Pure     bool     // function may be called inside specs (its ensures define result)
+	PureOnly map[int]bool // when set: only these result indices are functions of the arguments
 	Trusted  bool     // body not verified (assumption, listed)
 	Pin      string   // trusted contracts are pinned to a hash of the function they were written for
 	Asserts  map[int][]*Clause // ghost asserts keyed by statement ordinal? (unused for now)
@@ -690,7 +691,17 @@ func parseContractText(pkg, fname, text string) (*ContractFile, error) {
 		case "nosafety":
 			cur.NoSafety = true
 		case "pure":
+			// `pure` : every result is a function of the arguments; `pure result2`: only the listed results are
+			// (the others may be freshly allocated objects)
 			cur.Pure = true
+			for _, f := range strings.Fields(rest) {
+				if n, err := strconv.Atoi(strings.TrimPrefix(f, "result")); err == nil && n >= 1 {
+					if cur.PureOnly == nil {
+						cur.PureOnly = map[int]bool{}
+					}
+					cur.PureOnly[n-1] = true
+				}
+			}
 		case "trusted":
 			cur.Trusted = true
 			// trusted pin=<hash>: the assumed contract was written for that version of the function
